@@ -26,7 +26,7 @@ func init() {
 
 func runC08(x *Ctx) {
 	x.C.Rule("C08.R1", "CID constants: CIDv1, dag-cbor, sha2-256, buffered = streaming", 4)
-	x.C.Rule("C08.R2", "the bytes hashed are the bytes decoded / returned; CIDReader/CIDWriter transparency", 14)
+	x.C.Rule("C08.R2", "the bytes hashed are the bytes decoded / returned; CIDReader/CIDWriter transparency", 15)
 	x.C.Rule("C08.R3", "decoders use the package function dagcbor.Decode", 1)
 	x.C.Rule("C08.R4", "canonical form enforced before a CID is reported for received bytes", 6)
 
@@ -218,6 +218,36 @@ func runC08(x *Ctx) {
 			}
 		}
 		x.C.Obl("C08.R2", "transparent:CIDWriter.Write", x.pos(f), "Write hashes p and forwards the same p to the inner writer, returning its results", ok, "")
+	}
+	// who may touch the wrapped stream: a second way to the inner reader / writer (a WriteString, a ReadFrom, an
+	// Unwrap) moves bytes that the hash never sees
+	{
+		funcs := map[*ssa.Function]bool{}
+		for _, g := range x.P.ModuleFuncs() {
+			if x.P.IsLibrary(g) {
+				funcs[g] = true
+			}
+		}
+		allowed := map[string]map[string]bool{
+			"CIDReader.r": {envPkg + "NewCIDReader": true, "(*" + envPkg + "CIDReader).Read": true},
+			"CIDWriter.w": {envPkg + "NewCIDWriter": true, "(*" + envPkg + "CIDWriter).Write": true},
+		}
+		bad, n := "", 0
+		for _, tf := range []struct{ typ, fld string }{{"CIDReader", "r"}, {"CIDWriter", "w"}} {
+			for _, u := range x.fieldUses(funcs, "token/internal/envelope", tf.typ, map[string]bool{tf.fld: true}) {
+				n++
+				okOwner := false
+				for _, o := range x.P.Owners(u.Fn) {
+					if allowed[tf.typ+"."+tf.fld][load.ShortName(o)] {
+						okOwner = true
+					}
+				}
+				if !okOwner {
+					bad += u.Pos + ": the wrapped stream of " + tf.typ + " is used in " + load.ShortName(u.Fn) + ": bytes moved there bypass the hash\n"
+				}
+			}
+		}
+		x.C.Obl("C08.R2", "inner-stream-owners", "token/internal/envelope/cid.go", "the wrapped reader / writer of CIDReader / CIDWriter is touched only by the constructor and by Read / Write (which hash what they move)", bad == "" && n >= 4, bad)
 	}
 	if f := x.fn("C08.R2", "(*"+envPkg+"CIDWriter).CID"); f != nil {
 		ps := x.pathsQuiet(f)
